@@ -145,6 +145,20 @@ func main() {
 					}
 				}
 			}
+			// a circle that reaches or encloses a pole holds points of every longitude: the bound then spans the whole
+			// longitude range, ends at the pole, and keeps the far side d/R of latitude from the centre
+			for _, dd := range []float64{d, 3e6, 9e6} {
+				rdeg := dd / 6378137.0 * 180 / math.Pi
+				if math.Abs(p[1])+rdeg < 90 {
+					continue
+				}
+				pb := geo.NewBoundAroundPoint(p, dd)
+				wantMin, wantMax := math.Max(p[1]-rdeg, -90), math.Min(p[1]+rdeg, 90)
+				if pb.Min[0] != -180 || pb.Max[0] != 180 || math.Abs(pb.Min[1]-wantMin) > 1e-9 || math.Abs(pb.Max[1]-wantMax) > 1e-9 {
+					c.Failf("bound-around", "NewBoundAroundPoint(%v, %v) = %v: the circle reaches a pole, want all longitudes and latitudes [%v, %v]", p, dd, pb, wantMin, wantMax)
+					break
+				}
+			}
 			small := orb.Bound{Min: p, Max: orb.Point{math.Min(p[0]+0.5, 180), math.Min(p[1]+0.25, 90)}}
 			pad := geo.BoundPad(small, d)
 			if pad.Min[0] > small.Min[0] || pad.Min[1] > small.Min[1] || pad.Max[0] < small.Max[0] || pad.Max[1] < small.Max[1] ||
